@@ -19,22 +19,23 @@ INCLUDES = {
     # termination: every item of a flushed batch is answered, a batch is flushed once; a failure that is not captured into the
     # future it belongs to leaves that future pending for ever (C02); the asyncio twin resumes by the same rules (C15)
     "C03": ["C02", "C05", "C11", "C15"],
-    "C04": ["C03", "C09", "C14"],  # helpers that issue their per-element requests in several rounds break "all requests travel in one flush"
+    "C04": ["C03", "C08", "C09", "C14"],  # helpers that issue their per-element requests in several rounds break "all requests travel in one flush"; tasks left on the stack by an aborted computation (C08) are skipped by the next walk and miss its flush
     "C07": ["C06"],                # nesting of activation periods presupposes that each context is active exactly while its task runs
     # a batch is flushed once: its lifecycle (switch before flush, cancel, items) is C11's subject; a task resumed before what it
     # awaits is done asks its items for their values and flushes their batch out of turn (C03)
     "C05": ["C03", "C11"],
     "C06": ["C08"],                # a context is registered with the active task: "active task is the running one" comes first
     "C08": ["C05", "C09"],
-    "C09": ["C12", "C13"],         # C09 quantifies over deduplicate, alru_cache and acached_per_instance as well
+    "C09": ["C12", "C13", "C15"],  # C09 quantifies over deduplicate, alru_cache and acached_per_instance as well; every calling convention consults the asyncio-mode flag (C15.MODE)
     # batches and batch items are futures too; a task is completed by the capture of its failure (C02); a batch's computation
     # runs once only if the scheduler takes it out of its set before flushing it (C05)
     "C10": ["C02", "C05", "C11"],
+    "C11": ["C05"],                # the flush body runs once only if the scheduler cannot select a batch that is in the middle of its flush
     "C12": CORE + ["C15"],         # in asyncio mode deduplicate hands over to .asyncio(): the mode flag must be confined (C15)
     "C13": CORE,
     "C14": CORE,
     "C15": ["C02", "C10"],
     "C16": ["C12"],                # the deduplication scope is per thread
-    "C17": ["C02", "C03", "C10"],
+    "C17": ["C02", "C03", "C06", "C10"],   # a with-block in a generator body is entered and left under different tasks: registration must stay consistent (C06)
     "C19": ["C15"],                # .asyncio() of a patched function runs under the asyncio-mode flag
 }
